@@ -209,3 +209,12 @@ Theorem C03Compose_example_proposal :
   emitted_proposals (run_events (sm0 true) ex_ph_hist) = [(1, 0, [9]); (1, 0, [9])].
 Proof. exact ex_proposals. Qed.
 Print Assumptions C03Compose_example_proposal.
+
+(** ** What was emitted was signed (FULL): every vote in [emitted_votes] - labelled with the (h, r) of
+    the emission - is a signature the signer produced, with exactly that (h, r, target), in the same
+    history (C02_emitted_was_signed_and_saved over the bridge).  The converse is false:
+    C03_A1_from_signer_calls_refuted. *)
+Theorem C03_emitted_votes_were_signed : forall sg es key v,
+  In v (emitted_votes key (run_events (sm0 sg) es)) -> In v (signed_votes key (run_events (sm0 sg) es)).
+Proof. exact emitted_votes_were_signed. Qed.
+Print Assumptions C03_emitted_votes_were_signed.
